@@ -55,6 +55,9 @@ def main(argv):
             model = None
         else:
             model = core.Model()
+        # fork the worker processes now, while this process is still small (scenario lists can be hundreds of MB)
+        from harness import fam
+        fam.pool()
         mod.run(rep, info, model, tier, seed)
     except Exception:
         tb = traceback.format_exc()
